@@ -510,6 +510,9 @@ class Visitor:
                     runtime=not self.type_guarded,
                 )
                 self.current.set_member(alias_name, alias)
+                # `from module import __all__` makes the other module's list this module's own `__all__`.
+                if alias_name == "__all__" and self.current.is_module and not self.type_guarded:
+                    self.current.exports = [ExprName("__all__", parent=self.current)]  # type: ignore[attr-defined]
                 self.extensions.call("on_alias", alias=alias, node=node, agent=self)
 
     def handle_attribute(
